@@ -252,7 +252,7 @@ string HandleTwo(const vector<string> &toks) {
     }
     // requests the service never completed: their callbacks (and OutstandingRequests) are dropped
   }
-  out << "hazard=none";
+  out << "oversize_accepted=0;hazard=none";
   g_ctx = NULL;
   return out.str();
 }
@@ -307,6 +307,8 @@ string Handle(const string &payload) {
   string pending_out;   // bytes the channel sent that do not form a whole frame yet
   std::ostringstream out;
   bool jam = false;
+  bool oversize_script = false;   // the stream contains a right-version header announcing more than 1 MB
+  bool still_open = false;
   {
     RpcChannel channel(&service, &sock, &export_map);
     channel.SetChannelCloseHandler(ola::NewSingleCallback(&OnChannelCloseA));
@@ -317,6 +319,7 @@ string Handle(const string &payload) {
       char c = tok[0];
       string rest = tok.substr(1);
       if (c == '@' || c == 'T' || c == 'Q') continue;
+      if (c == 'X') { oversize_script = true; continue; }
       if (c == 'A') { service.async = true; continue; }
       if (c == 'z') {
         // fill the channel's send direction so that every later Send() fails; stop reading our end
@@ -381,7 +384,10 @@ string Handle(const string &payload) {
           << (channel.m_buffer ? __sanitizer_get_allocated_size(channel.m_buffer) : 0) << ";";
       idx++;
     }
+    still_open = sock.ValidReadDescriptor();
   }
+  // needs no model: after such a header the channel must have been closed
+  out << "oversize_accepted=" << (oversize_script && still_open ? 1 : 0) << ";";
   out << "hazard=none";
   g_ctx = NULL;
   return out.str();
